@@ -460,9 +460,9 @@ pub fn check(ctx: &mut Ctx) {
         "removeparam rules are kept out of engine histories (C08 known finding: they are not serialized)".into(),
         "lists with two equal-priority redirect rules naming different resources are skipped (the choice between them is free)".into(),
     ];
-    let n = ctx.tier.pick(8_000, 400_000);
+    let n = ctx.tier.pick(30_000, 500_000);
     drive(ctx, "engine", n, 1500, &decode_engine, &check_engine);
-    let n = ctx.tier.pick(12_000, 600_000);
+    let n = ctx.tier.pick(50_000, 800_000);
     drive(ctx, "blocker", n, 900, &decode_blocker, &check_blocker);
 }
 
